@@ -174,7 +174,7 @@ def run(out, tier, model_ok=True):
       inst['params']['iroas'] = 1.0
     # three quarters of the instances are ones that admit at least one design (generation aid only: an invariance
     # comparison of two empty results says little); the rest are taken as they come, errors and empty results included
-    if rng.random() < 0.15 and len(inst['geos']) >= 2:
+    if (rng.random() < 0.15 or i % 3 == 1) and len(inst['geos']) >= 2:
       # a share bound the user read off the data: the share of one geo (or of two) as the data object reports it
       try:
         from matched_markets.methodology import tbrmmdata
@@ -185,6 +185,7 @@ def run(out, tier, model_ok=True):
           inst['params']['treatment_share_range'] = [v, rng.choice([x for x in (0.6, 0.8, 0.95, 0.999) if x > v] or [min(0.9999, (1 + v) / 2)])] \
               if rng.random() < 0.5 else [rng.choice([x for x in (0.001, 0.01, 0.05) if x < v] or [v / 2]), v]
           inst['params'].pop('budget_range', None)
+          inst['params']['n_designs'] = 1000      # every design is reported: a group flipping across the bound shows
       except Exception:
         pass
     if not feasible(inst) and rng.random() < 0.75 and i < 20 * n:
